@@ -98,7 +98,7 @@ func Abs(path string) (string, error) {
 		return filepath.Abs(path)
 	}
 	if filepath.IsAbs(path) {
-		return filepath.Clean(path), nil
+		return filepath.Clean(path), nil // filepath.Abs cleans lexically, like the real one
 	}
 	wd, err := Getwd()
 	if err != nil {
